@@ -129,7 +129,19 @@ class Gen:
                 if num in (5, 9, 12, 41, 42, 64, 1024, 30):
                     self.emit(f"mv {r.choice(TEMPS)}, a0")
             else:
-                if frame and r.random() < 0.7:
+                ptrs = [x for x in live if x in SAVED] if self.data_labels else []
+                if ptrs and r.random() < 0.5:
+                    # a saved register used as a data pointer: word stores and loads through it at the
+                    # small offsets that frame slots also have (they are not stack accesses)
+                    p_ = r.choice(ptrs)
+                    self.stats["stores_through_saved_pointer"] = self.stats.get("stores_through_saved_pointer", 0) + 1
+                    self.emit(f"la {p_}, {r.choice(self.data_labels)}")
+                    self.emit(f"sw {r.choice(src)}, {r.choice([0, 4, 8, 12])}({p_})")
+                    if r.random() < 0.5:
+                        d2 = r.choice(TEMPS)
+                        self.emit(f"lw {d2}, {r.choice([0, 4, 8])}({p_})")
+                        live.append(d2)
+                elif frame and r.random() < 0.7:
                     off = r.choice(range(0, frame, 4))
                     if r.random() < 0.5:
                         self.emit(f"sw {r.choice(src)}, {off}(sp)")
